@@ -39,7 +39,7 @@ def generate(seed, tier):
     names, style = gen_filter(rng, None, p_none=0.5)
     other_size = gen_instance(rng, sparse_ids=0.03, large=0.008, max_jobs=4, max_machines=4, max_ops=4) if rng.random() < 0.3 else None
     abandoned = [["dispatch", rng.randrange(64), rng.randrange(64), int(rng.random() < 0.5)] for _ in range(rng.randint(1, 4))] if rng.random() < 0.3 else []
-    return {"prop": PROP, "cfg": {"instance": spec, "source": source, "filter": names, "filter_style": style, "abandoned": abandoned, "other_size": other_size, "rejected_requests": rng.random() < 0.2,
+    return {"prop": PROP, "cfg": {"instance": spec, "source": source, "filter": names, "filter_style": style, "abandoned": abandoned, "other_size": other_size, "from_blocks": rng.random() < 0.15, "rejected_requests": rng.random() < 0.2,
                                   "second": rng.choice([None, None, "rule", "dispatcher"]),
                                   "rule": rng.choice(["shortest_processing_time", "most_work_remaining", "first_come_first_served", "random"]),
                                   "solver_seed": rng.randrange(1 << 30)},
@@ -96,6 +96,36 @@ def check_builder(ctx, inst, jobs, name):
     return g
 
 
+def check_blocks(ctx, inst, jobs):
+    """The complete agent-task graph composed by hand from the exported building blocks; the user looks at
+    the graph (nodes_by_type, num_job_nodes, non_removed_nodes) between the steps."""
+    from job_shop_lib import graphs as G
+    from job_shop_lib.graphs import JobShopGraph, NodeType
+
+    g = JobShopGraph(inst)
+    look = lambda: (len(g.nodes_by_type[NodeType.MACHINE]), len(g.nodes_by_type[NodeType.JOB]), len(g.nodes_by_type[NodeType.GLOBAL]), g.num_job_nodes, len(g.non_removed_nodes()))  # noqa: E731
+    try:
+        look()
+        G.add_machine_nodes(g)
+        G.add_operation_machine_edges(g)
+        look()
+        G.add_job_nodes(g)
+        G.add_operation_job_edges(g)
+        look()
+        G.add_global_node(g)
+        G.add_machine_global_edges(g)
+        G.add_job_global_edges(g)
+    except Exception as e:  # noqa: BLE001
+        ctx.fail("builder_raised", f"composing the complete agent-task graph from its building blocks raised {short_exc(e)}", builder="blocks")
+        return
+    want_nodes, want_edges = graph_spec(jobs, "agent_task_complete")
+    kinds = [(n.node_type.name,) if n.node_type.name in ("GLOBAL",) else (n.node_type.name, n.operation.operation_id if n.node_type.name == "OPERATION" else (n.machine_id if n.node_type.name == "MACHINE" else n.job_id)) for n in g.nodes]
+    ctx.check(kinds == [tuple(x) for x in want_nodes], "nodes_equal_spec", lambda: f"graph composed from building blocks: nodes {kinds}, specification {want_nodes}", builder="blocks")
+    got = {(int(u), int(v)) for u, v in g.graph.edges()}
+    ctx.check(got == set(want_edges), "no_edge_missing", lambda: f"graph composed from building blocks: missing {sorted(set(want_edges) - got)[:5]}, extra {sorted(got - set(want_edges))[:5]}", builder="blocks")
+    ctx.probe("graph_composed_from_blocks")
+
+
 def execute(case, ctx):
     import networkx as nx
     from job_shop_lib import Schedule
@@ -127,6 +157,8 @@ def execute(case, ctx):
             got = {(int(u), int(v)) for u, v in g.graph.edges()}
             ctx.check(got == set(want_edges), "no_extra_edge", lambda: f"{name}: edge set of a graph built earlier changed", builder=name)
         ctx.probe("graphs_rechecked_after_other_instance")
+    if cfg.get("from_blocks"):
+        check_blocks(ctx, inst, jobs)
     if is_flexible(spec):
         ctx.probe("flexible_instance_graphs")
     source = cfg["source"]
